@@ -464,6 +464,26 @@ static std::string loc_name(const Loc& l) {
   }
 }
 
+// name of a location inside a violation key: the operand it belongs to (stable across register assignments, same
+// vocabulary as the quick tier) or, for a location that is no operand at all, its architectural name
+static std::string loc_key(const Case& c, const Loc& l) {
+  for (size_t j = 0; j < c.n; j++) {
+    const OpDesc& d = c.od[j];
+    std::string op = "op" + std::to_string(j);
+    if (l.kind == Loc::GP && d.kind == kGp && d.id == l.idx) return op;
+    if (l.kind == Loc::VEC && d.kind == kVec && d.id == l.idx) return op;
+    if (l.kind == Loc::K && d.kind == kK && d.id == l.idx) return op;
+    if (l.kind == Loc::MEMOP && l.idx == j) return op;
+    if (d.kind == kMem) {
+      if (l.kind == Loc::GP && d.base == int(l.idx)) return op + ".base";
+      if (l.kind == Loc::GP && d.index == int(l.idx)) return op + ".index";
+      if (l.kind == Loc::VEC && d.vindex == int(l.idx)) return op + ".index";
+    }
+  }
+  if (l.kind == Loc::K && c.extra_k == int(l.idx)) return "mask";
+  return loc_name(l);
+}
+
 static uint8_t diff_bytes8(uint64_t a, uint64_t b) {
   uint8_t m = 0; uint64_t x = a ^ b;
   for (int i = 0; i < 8; i++) if ((x >> (8 * i)) & 0xFF) m |= uint8_t(1u << i);
@@ -499,7 +519,7 @@ struct Judge {
       if (ch & ~s.gp_w[g]) {
         snprintf(b, sizeof b, "%s changes %016" PRIx64 " -> %016" PRIx64 " (bytes %#x, base state %d) but reported write|extend byte mask is %#x",
                  kGpNames[g], in.gpr[g], out.gpr[g], ch, p, s.gp_w[g]);
-        viol(s.gp_w[g] ? "byte-mask" : std::string("missing-write:") + kGpNames[g], b);
+        viol(s.gp_w[g] ? "byte-mask" : "missing-write:" + loc_key(c, Loc{Loc::GP, g}), b);
       }
       if (s.gp_z[g] && (diff_bytes8(out.gpr[g], 0) & s.gp_z[g])) {
         snprintf(b, sizeof b, "%s = %016" PRIx64 " after the instruction but bytes %#x are reported zero-extended (kZExt)", kGpNames[g], out.gpr[g], s.gp_z[g]);
@@ -510,13 +530,13 @@ struct Judge {
       uint64_t ch = diff_bytes64(in.zmm[v], out.zmm[v]);
       if (ch && !s.vec_written[v]) {
         snprintf(b, sizeof b, "zmm%u changes in bytes %#" PRIx64 " (base state %d) but no operand reports it written", v, ch, p);
-        viol("missing-write:zmm" + std::to_string(v), b);
+        viol("missing-write:" + loc_key(c, Loc{Loc::VEC, v}), b);
       }
     }
     for (uint32_t k = 0; k < 8; k++)
       if (in.k[k] != out.k[k] && !s.k_w[k]) {
         snprintf(b, sizeof b, "k%u changes %016" PRIx64 " -> %016" PRIx64 " (base state %d) but no operand reports it written", k, in.k[k], out.k[k], p);
-        viol("missing-write:k" + std::to_string(k), b);
+        viol("missing-write:" + loc_key(c, Loc{Loc::K, k}), b);
       }
     uint64_t fch = (in.flags ^ out.flags) & ~s.flags_write;
     if (fch) {
@@ -588,7 +608,7 @@ struct Judge {
     if (!what.empty()) {
       std::string t = loc_name(l) + " is not reported read, but changing only it (base state " + std::to_string(p) + ", perturbation " +
                       std::to_string(q) + ") changes a reported output: " + what;
-      viol("missing-read:" + loc_name(l), t);
+      viol("missing-read:" + loc_key(c, l), t);
     }
   }
 };
